@@ -278,6 +278,7 @@ def materialize(cfg, saved, seed=0):
     L.selftest = False
     if saved is None:
         L.mk()
+        L.nurand = 0
         L.versions = {}
         L.time = labmod.NOW
         L._t = 0
